@@ -105,6 +105,9 @@ func (w *vWorld) parse(ctx context.Context, query string) (PreparedStatements, e
 	w.events = append(w.events, vEvent{kind: 'p', query: []byte(query), ctx: ctx})
 	w.lastParse = nil
 	w.lastParseErr = false
+	if w.parseMenu == -2 { // deterministic: exactly one statement with one column
+		return Prepared(w.mkStmt(1, 0)), nil
+	}
 	if w.parseMenu < 0 { // exactly one statement, 1 or 0 columns
 		return Prepared(w.mkStmt(vChoose(2), 0)), nil
 	}
